@@ -15,23 +15,27 @@ No well-formedness of `body` is needed for this: it follows from byte conservati
 (`parser_conserves`, proved once for ALL programs, so it also covers whatever the translator regenerates) plus
 `expectZeroSize` and the drain on kafka errors (`discardOnKafkaError`, the D2 fix).
 
-Operations outside that theorem, and why:
-  * listOffsets (`readOffset`): returns the kafka error from inside the partition loop without a drain; aligned only
-    because a list-offsets response to a one-partition request has one topic with one partition, the error code being
-    followed by the two int64 of the same entry: `listOffsets_aligned_wf` (∀ topic name, partition, error code,
-    timestamp, offset, trailing bytes — for the regenerated operation by `listOffsets_gen_shape`);
-    `listOffsets_two_partitions_counterexample` shows why the shape hypothesis is needed, `listOffsets_wf_example`
-    is a concrete instance.
-  * fetch (`ReadBatchWith`/`Batch`): `fetch_aligned_or_closed`, for every message-set reader that conserves bytes, with
-    the hypothesis that a response at the high watermark carries an empty set (`fetch_at_watermark_counterexample`).
-  * apiVersions: no `expectZeroSize`, no close on error in the Go code, so nothing can be said about arbitrary bytes;
-    `apiVersions_aligned_wf`: on every well-formed v0 frame (any error code, any number of entries, anything after
-    the frame) the result is ok / that kafka error and exactly the frame is consumed.
+Operations that needed more than the table entry, and why:
+  * listOffsets (`readOffset`): inside the main theorems since the fix C11-D34 (the kafka error left the partition
+    loop without a drain: `listOffsets_two_partitions_counterexample` keeps that shape); `listOffsets_aligned_wf`
+    adds that every frame of the shape a broker answers a one-partition request with (∀ topic name, partition, error
+    code, timestamp, offset, trailing bytes) gives ok / that kafka error with exactly the frame consumed — for the
+    regenerated operation by `listOffsets_gen_shape`; `listOffsets_wf_example` is a concrete instance.
+  * fetch (`ReadBatchWith`/`Batch`): `fetch_aligned_or_closed`, for every message-set reader that conserves bytes (the
+    hypothesis is discharged for the reader stack of message_reader.go: `stackBody_conserves`); unconditional since the
+    fix C11-D32 (`fetch_at_watermark_counterexample` keeps the unfixed shape).
+  * apiVersions: inside the main theorems since the fix C11-D33 (`expectZeroSize` and close on non-kafka errors, both
+    regenerated; before it nothing could be said about arbitrary bytes: `apiVersions_trailing_counterexample`);
+    `apiVersions_aligned_wf` adds that on every well-formed v0 frame (any error code, any number of entries, anything
+    after the frame) the result is ok / that kafka error and exactly the frame is consumed — the count of entries is
+    checked before the loop (`.arrB 6`, regenerated from `arrSize < 0 || int(arrSize) > size/6`).
 The D2 shape (no drain) is kept as `d2_regression_counterexample`: the theorem is false for it.
 -/
 import KafkaVerif.Lemmas.ConnOps
+import KafkaVerif.Lemmas.ConnLocal
 import KafkaVerif.Model.ConnSpecs
 import KafkaVerif.Spec.ConnFrames
+import KafkaVerif.Model.ReaderStack
 
 namespace KV.C11
 open KV KV.Reader KV.ConnOps
@@ -114,10 +118,45 @@ theorem next_op_as_fresh (o : OpSpec) (v : Nat) (topic : Bytes) (c : Conn) (hdr 
   · rw [h.2]
   · rw [h.1] at hnf; cases hnf
 
+/-- **no byte of another response is ever looked at**: for EVERY operation (good or not), every version and every
+body, the result of an exchange is a function of the bytes of its own frame alone, and whatever follows the frame on
+the stream is still there, untouched, after whatever part of the frame was left unread.  (Locality of every parser
+program: `runSteps_local`, by the same mutual induction as conservation.) -/
+theorem result_depends_only_on_frame (o : OpSpec) (v : Nat) (topic : Bytes) (c : Conn) (hdr body rest : Bytes)
+    (hopen : c.closed = false)
+    (hstream : c.stream = hdr ++ body ++ rest) (hlen : hdr.length = 8)
+    (hsize : beInt (hdr.take 4) = body.length + 4) (hid : beInt (hdr.drop 4) = c.nextId) :
+    (connDo o v topic c).1 = (opRead o v topic ⟨body, body.length⟩).1 ∧
+    (connDo o v topic c).2.stream = (opRead o v topic ⟨body, body.length⟩).2.inp ++ rest := by
+  have hw := wait_ok c hdr body rest hstream hlen hsize hid
+  have hl := opRead_local o v topic rest ⟨body, body.length⟩ (by simp [Enough])
+  simp only [ext] at hl
+  unfold connDo
+  simp only [hopen, Bool.false_eq_true, ↓reduceIte, hw, hl]
+  exact ⟨trivial, trivial⟩
+
 /-- after a transport / framing error the Conn is closed and every later operation fails, forever -/
 theorem closed_stays_failed (o : OpSpec) (v : Nat) (topic : Bytes) (c : Conn) (h : c.closed = true) :
     (connDo o v topic c).1.isFail = true ∧ (connDo o v topic c).2 = c := by
   unfold connDo; simp [h, Outcome.isFail]
+
+/-- a response nobody asked for (foreign correlation id at the head of the stream, one waiter): io.ErrNoProgress AND the
+Conn is closed (fix C11-D30) — so by `closed_stays_failed` every later operation fails, whatever ids it uses; before
+the fix a later request whose id happened to equal the stale frame's took it for its own response. -/
+theorem desync_closes (o : OpSpec) (v : Nat) (topic : Bytes) (c : Conn) (hopen : c.closed = false)
+    (hlen : 8 ≤ c.stream.length) (hid : beInt ((c.stream.drop 4).take 4) ≠ c.nextId) :
+    (connDo o v topic c).1.isFail = true ∧ (connDo o v topic c).2.closed = true ∧
+    ∀ o₂ v₂, (connDo o₂ v₂ topic (connDo o v topic c).2).1.isFail = true := by
+  have hw : waitResponse c = .error (.other "io.ErrNoProgress") := by
+    unfold waitResponse
+    have : ¬ c.stream.length < 8 := by omega
+    simp [this, hid]
+  have h1 : connDo o v topic c = (.fail (.other "io.ErrNoProgress"), { c with nextId := c.nextId + 1, closed := true }) := by
+    unfold connDo
+    simp [hopen, hw]
+  rw [h1]
+  refine ⟨rfl, rfl, fun o₂ v₂ => ?_⟩
+  exact (closed_stays_failed o₂ v₂ topic _ rfl).1
 
 theorem closed_stays_failed_fetch (fixed : Bool) (v : Nat) (off : Int) (b : Body) (c : Conn) (h : c.closed = true) :
     (connFetch fixed v off b c).1.isFail = true ∧ (connFetch fixed v off b c).2 = c := by
@@ -126,7 +165,7 @@ theorem closed_stays_failed_fetch (fixed : Bool) (v : Nat) (off : Int) (b : Body
 /-! ### the operation table satisfies the hypotheses (facts regenerated from /repo on every run) -/
 
 /-- operations covered by `aligned_or_closed` -/
-def coveredOps : List String := doOps.filter (· != "listOffsets")
+def coveredOps : List String := doOps      -- all of them since list-offsets drains on kafka errors (fix C11-D34)
 
 def goodFor (name : String) (vs : List Nat) : Bool :=
   match specOf name with
@@ -150,6 +189,108 @@ theorem covered_ops_good : coveredOps.all (fun n => goodFor n (versionsFor n)) =
 theorem produce_good : goodFor "produce" [2, 3, 7] = true := by decide
 
 theorem fetch_fixed : fetchFixed = true := by decide
+
+/-- `do` and `Batch.close` close the connection on exactly the non-kafka errors (regenerated; `connFetch` closes on every
+failed outcome, and failed = non-kafka there) -/
+theorem close_rules_hold : Gen.ConnLegacy.doClosesNonKafka = true ∧ Gen.ConnLegacy.batchClosesNonKafka = true := by decide
+
+/-! ### a size prefix below 4 (negative ones included)
+
+conn.go waitResponse hands `size − 4` to the read closure; with a prefix below 4 (the correlation id alone takes 4
+bytes) that is ≤ 0 and every `readIntN` / `discardN` of read.go answers errShortRead without touching the stream: the
+operation fails and `do` closes the Conn.  This removes the assumption "size prefix ≥ 4" from the main theorems: a
+fully delivered frame either has an honest prefix (`aligned_or_closed`) or a prefix below 4 (`bad_size_closes`) — a
+prefix that is ≥ 4 but wrong is some other frame's honest prefix as far as the client can tell. -/
+
+/-- the program, run on a frame of announced size 0 (and nothing to read), stops with errShortRead having touched
+nothing — a closed computation, decided per operation and version below -/
+def shortAtZero (ps : List Step) (v : Nat) : Bool :=
+  match runSteps ps { ver := v } ⟨[], 0⟩ with
+  | (.error .shortRead, ⟨[], 0⟩) => true
+  | _ => false
+
+/-- … and then it does so whatever the stream holds (locality: the program cannot look beyond the announced size) -/
+theorem opRead_zero (o : OpSpec) (v : Nat) (topic inp : Bytes) (h : shortAtZero (o.parse v) v = true) :
+    opRead o v topic ⟨inp, 0⟩ = (.fail .shortRead, ⟨inp, 0⟩) := by
+  have hl := runSteps_local (o.parse v) inp { ver := v } ⟨[], 0⟩ (by simp [Enough])
+  simp only [ext, List.nil_append] at hl
+  unfold shortAtZero at h
+  unfold opRead
+  rw [hl]
+  cases hr : runSteps (o.parse v) { ver := v } ⟨[], 0⟩ with
+  | mk r s' =>
+    rw [hr] at h
+    obtain ⟨i, z⟩ := s'
+    cases r with
+    | ok _ => simp at h
+    | error e =>
+      cases e <;> cases i <;> cases z <;> simp at h
+      simp
+
+def startsFor (name : String) (vs : List Nat) : Bool :=
+  match specOf name with
+  | some o => vs.all (fun v => shortAtZero (o.parse v) v)
+  | none => false
+
+/-- every operation of the table (list-offsets included), every negotiated version, on the regenerated programs -/
+theorem ops_short_at_zero : doOps.all (fun n => startsFor n (versionsFor n)) = true := by decide
+
+/-- waitResponse on a header for the expected id whose size prefix is below 4: the read closure gets size 0 -/
+theorem wait_bad_size (c : Conn) (hdr rest : Bytes) (hstream : c.stream = hdr ++ rest) (hlen : hdr.length = 8)
+    (hsize : beInt (hdr.take 4) < 4) (hid : beInt (hdr.drop 4) = c.nextId) :
+    waitResponse c = .ok (0, rest) := by
+  have h1 : ¬ c.stream.length < 8 := by rw [hstream]; simp only [List.length_append]; omega
+  have h2 : c.stream.take 4 = hdr.take 4 := by
+    rw [hstream, List.take_append_of_le_length (by omega)]
+  have h3 : (c.stream.drop 4).take 4 = hdr.drop 4 := by
+    rw [hstream, List.drop_append_of_le_length (by omega)]
+    rw [List.take_append_of_le_length (by simp; omega)]
+    exact List.take_of_length_le (by simp; omega)
+  have h4 : c.stream.drop 8 = rest := by
+    rw [hstream, ← hlen, List.drop_left]
+  have hz : (beInt (hdr.take 4) - 4).toNat = 0 := by omega
+  unfold waitResponse
+  simp only [h1, ↓reduceIte, h2, h3, hid, h4, ne_eq, not_true_eq_false, hz]
+
+/-- a response for the expected correlation id whose size prefix is below 4: the operation fails (errShortRead) and the
+Conn is closed — for every such prefix, negative ones included, and whatever follows. -/
+theorem bad_size_closes (o : OpSpec) (v : Nat) (topic : Bytes) (c : Conn) (hdr rest : Bytes)
+    (hstart : shortAtZero (o.parse v) v = true) (hclose : o.closeOnErr = true) (hopen : c.closed = false)
+    (hstream : c.stream = hdr ++ rest) (hlen : hdr.length = 8)
+    (hsize : beInt (hdr.take 4) < 4) (hid : beInt (hdr.drop 4) = c.nextId) :
+    (connDo o v topic c).1 = .fail .shortRead ∧ (connDo o v topic c).2.closed = true := by
+  have hw := wait_bad_size c hdr rest hstream hlen hsize hid
+  unfold connDo
+  simp only [hopen, Bool.false_eq_true, ↓reduceIte, hw, opRead_zero o v topic rest hstart]
+  simp [Outcome.isFail, hclose]
+
+/-- fetch: the three header programs stop with errShortRead at size 0 (ReadBatchWith maps it to io.ErrUnexpectedEOF) -/
+theorem fetch_headers_short_at_zero : [2, 5, 10].all (fun v => shortAtZero (fetchHeader v) v) = true := by decide
+
+theorem bad_size_closes_fetch (fixed : Bool) (v : Nat) (off : Int) (b : Body) (c : Conn) (hdr rest : Bytes)
+    (hstart : shortAtZero (fetchHeader v) v = true) (hopen : c.closed = false)
+    (hstream : c.stream = hdr ++ rest) (hlen : hdr.length = 8)
+    (hsize : beInt (hdr.take 4) < 4) (hid : beInt (hdr.drop 4) = c.nextId) :
+    (connFetch fixed v off b c).1 = .fail .unexpectedEOF ∧ (connFetch fixed v off b c).2.closed = true := by
+  have hw := wait_bad_size c hdr rest hstream hlen hsize hid
+  have hl := runSteps_local (fetchHeader v) rest { ver := v } ⟨[], 0⟩ (by simp [Enough])
+  simp only [ext, List.nil_append] at hl
+  unfold shortAtZero at hstart
+  have hr : fetchRead fixed v off b ⟨rest, 0⟩ = (.fail .unexpectedEOF, ⟨rest, 0⟩) := by
+    unfold fetchRead
+    rw [hl]
+    cases hr : runSteps (fetchHeader v) { ver := v } ⟨[], 0⟩ with
+    | mk r s' =>
+      rw [hr] at hstart
+      obtain ⟨i, z⟩ := s'
+      cases r with
+      | ok _ => simp at hstart
+      | error e =>
+        cases e <;> cases i <;> cases z <;> simp at hstart
+        simp
+  unfold connFetch
+  simp only [hopen, Bool.false_eq_true, ↓reduceIte, hw, hr]
+  simp [Outcome.isFail]
 
 /-! ### the regenerated parser programs are the Kafka layouts (Spec/ConnFrames.lean, transcribed independently) -/
 
@@ -176,6 +317,38 @@ theorem gen_partitions_match_spec :
     renderSteps 2 produceResponsePartitionV2 = renderSteps 2 (producePartition 2) ∧
     renderSteps 3 produceResponsePartitionV2 = renderSteps 3 (producePartition 3) ∧
     renderSteps 7 produceResponsePartitionV7 = renderSteps 7 (producePartition 7) := by decide
+
+/-! ### the transcribed closures / fetch headers are what the translator regenerates from read.go and conn.go -/
+
+open KV.Gen.ConnLegacy in
+theorem closures_regenerated :
+    stepsEq fetchHeaderV2Gen fetchHeaderV2 = true ∧ stepsEq fetchHeaderV5Gen fetchHeaderV5 = true ∧
+    stepsEq fetchHeaderV10Gen fetchHeaderV10 = true ∧
+    stepsEq readOffsetClosureGen (readOffsetClosure partitionOffsetV1) = true ∧
+    produceClosureGen.all (fun vp => match specOf "produce" with
+                                     | some o => stepsEq vp.2 (o.parse vp.1)
+                                     | none => false) = true ∧
+    produceClosureGen.map (·.1) = versionsOf "writeCompressedMessages" ∧
+    stepsEq apiVersionsParseGen apiVersionsParse = true ∧ apiVersionsErrAfter = true := by decide
+
+/-! `stepsEq` is sound: it only accepts equal programs, so the theorems about the transcriptions are theorems about
+the regenerated programs -/
+mutual
+theorem eqv_sound : ∀ (a b : Step), a.eqv b = true → a = b := by
+  intro a b h
+  cases a <;> cases b <;> simp only [Step.eqv, Bool.and_eq_true, beq_iff_eq, Bool.false_eq_true] at h
+  all_goals first
+    | rfl
+    | (subst h; rfl)
+    | (rename_i x y; rw [stepsEq_sound x y h])
+    | (rename_i v x w y; obtain ⟨h1, h2⟩ := h; subst h1; rw [stepsEq_sound x y h2])
+theorem stepsEq_sound : ∀ (a b : List Step), stepsEq a b = true → a = b := by
+  intro a b h
+  cases a <;> cases b <;> simp only [stepsEq, Bool.and_eq_true, Bool.false_eq_true] at h
+  · rfl
+  · rename_i x xs y ys
+    rw [eqv_sound x y h.1, stepsEq_sound xs ys h.2]
+end
 
 /-! ### D2: what the fix repairs (regression witness; the unfixed shape violates the theorem) -/
 
@@ -211,12 +384,13 @@ example : d2Body.length = 37 ∧ beInt ((d2Frame 1).take 4) = d2Body.length + 4 
 /-! ### fetch -/
 
 /-- C11 for fetch (ReadBatchWith, reading the batch to its end, Batch.Close), for EVERY message-set reader that
-conserves bytes.  `hwf`: a response whose high watermark equals the fetch offset carries an empty message set. -/
+conserves bytes — no hypothesis on the frame (since the fix C11-D32 the message set of a response at the high watermark is
+skipped as well). -/
 theorem fetch_aligned_or_closed (v : Nat) (offset : Int) (b : Body) (c : Conn) (hdr body rest : Bytes)
     (hb : b.Conserves) (hopen : c.closed = false)
     (hstream : c.stream = hdr ++ body ++ rest) (hlen : hdr.length = 8)
     (hsize : beInt (hdr.take 4) = body.length + 4) (hid : beInt (hdr.drop 4) = c.nextId)
-    (hwf : ∀ cx s1, runSteps (fetchHeader v) { ver := v } ⟨body ++ rest, body.length⟩ = (.ok cx, s1) → cx.hwm = offset → s1.sz = 0) :
+    :
     ((connFetch true v offset b c).1.isFail = false ∧
         (connFetch true v offset b c).2 = { stream := rest, nextId := c.nextId + 1, closed := false }) ∨
     ((connFetch true v offset b c).1.isFail = true ∧ (connFetch true v offset b c).2.closed = true) := by
@@ -227,18 +401,19 @@ theorem fetch_aligned_or_closed (v : Nat) (offset : Int) (b : Body) (c : Conn) (
   | true => right; simp
   | false =>
     left
-    have hz := fetchRead_full v offset b ⟨body ++ rest, body.length⟩ hb (by simp) hwf hf
+    have hz := fetchRead_full v offset b ⟨body ++ rest, body.length⟩ hb (by simp) hf
     have ha := (fetchRead_adv true v offset b ⟨body ++ rest, body.length⟩ hb).consumed_all hz
     simp only [List.drop_left] at ha
     simp [ha.2]
 
-/-- why `hwf` is there: header ok, high watermark = fetch offset, but a non-empty set: the Go code takes the
-`messageSetReader{empty: true}` path, reports RequestTimedOut and leaves the set unread on a Conn it keeps.
-(No broker sends this; recorded as an observation in docs/notes/C11.md, replayed through the driver.) -/
+/-- C11-D32 (fixed): header ok, high watermark = fetch offset, but a non-empty set — the Go code takes the
+`messageSetReader{empty: true}` path and reports RequestTimedOut; before the fix it left the set unread on a Conn it
+keeps (first line, the unfixed shape), now it skips it (second line). -/
 def atWatermarkBody : Bytes :=
   [0,0,0,0, 0,0,0,1, 0,1,116, 0,0,0,1, 0,0,0,0, 0,0, 0,0,0,0,0,0,0,5, 0,0,0,3, 1,2,3]
 theorem fetch_at_watermark_counterexample :
-    fetchRead true 2 5 idealBody ⟨atWatermarkBody, atWatermarkBody.length⟩ = (.kafka 7, ⟨[1,2,3], 3⟩) := by decide
+    fetchRead false 2 5 idealBody ⟨atWatermarkBody, atWatermarkBody.length⟩ = (.kafka 7, ⟨[1,2,3], 3⟩) ∧
+    fetchRead true 2 5 idealBody ⟨atWatermarkBody, atWatermarkBody.length⟩ = (.kafka 7, ⟨[], 0⟩) := by decide
 
 /-- D2 for fetch v10 (top-level error) and v5 (partition error): unfixed shape leaves bytes, fixed shape does not -/
 def fetchErrV10 : Bytes := [0,0,0,0, 0,6, 0,0,0,9, 0,0,0,0]
@@ -255,16 +430,102 @@ theorem idealBody_conserves : idealBody.Conserves := by
     · refine ⟨s.inp.take s.sz, (List.take_append_drop _ _).symm, ?_⟩
       simp only [List.length_take]; omega
 
-/-! ### listOffsets: the one operation that relies on the shape of a well-formed frame -/
+/-! ### message_reader.go: the reader stack keeps the frame accounting (the `Body` hypothesis, discharged)
+
+`fetch_aligned_or_closed` assumes the message-set reader conserves bytes.  Model/ReaderStack.lean models what in
+message_reader.go decides that: which reader of the stack a read touches, how a compressed batch / wrapper is charged
+to the root's `remain`, and what `discard()` discards.  The three statements involved are regenerated facts. -/
+
+section ReaderStackSec
+open KV.ReaderStack
+
+theorem rootTake_adv (r : RS) (k : Nat) (h1 : k ≤ r.sz) (h2 : k ≤ r.inp.length) : Adv r (rootTake r k k) :=
+  ⟨r.inp.take k, (List.take_append_drop k r.inp).symm, by simp only [rootTake, List.length_take]; omega⟩
+
+/-- with the three accounting facts, every operation of the reader stack keeps the root's `remain` in step with the bytes
+taken from the Conn -/
+theorem stack_step_adv (f : Facts) (hf : f.all = true) (m : MSR) (o : Op) : Adv m.root (ReaderStack.step f m o).root := by
+  have h : f.discardRewinds = true ∧ f.v2AccountsConsumed = true ∧ f.v1AccountsConsumed = true := by
+    simpa [Facts.all, and_assoc] using hf
+  cases o with
+  | read n =>
+    simp only [ReaderStack.step]
+    cases m.children with
+    | nil => exact conserves_discardN n m.root
+    | cons c cs => exact Adv.refl _
+  | pushV2 b u d =>
+    simp only [ReaderStack.step]
+    cases m.children with
+    | nil => simp only [h.2.1, ↓reduceIte]; exact rootTake_adv _ _ (by omega) (by omega)
+    | cons c cs => exact Adv.refl _
+  | pushV1 n u d =>
+    simp only [ReaderStack.step]
+    cases m.children with
+    | nil => simp only [h.2.2, ↓reduceIte]; exact rootTake_adv _ _ (by omega) (by omega)
+    | cons c cs => exact Adv.refl _
+  | pop => exact Adv.refl _
+  | discard =>
+    simp only [ReaderStack.step, h.1, ↓reduceIte]
+    exact conserves_discardN _ m.root
+
+theorem stack_run_adv (f : Facts) (hf : f.all = true) : ∀ (os : List Op) (m : MSR), Adv m.root (ReaderStack.run f m os).root
+  | [], m => Adv.refl _
+  | o :: os, m => Adv.trans (stack_step_adv f hf m o) (stack_run_adv f hf os _)
+
+/-- `discard()` (Batch.close, end of batch) leaves nothing of the fetch response unread, whatever is on the stack -/
+theorem stack_discard_empties (f : Facts) (hf : f.all = true) (m : MSR) (he : m.root.sz ≤ m.root.inp.length) :
+    (ReaderStack.step f m .discard).root = ⟨m.root.inp.drop m.root.sz, 0⟩ ∧ (ReaderStack.step f m .discard).children = [] := by
+  have h : f.discardRewinds = true := by
+    have : f.discardRewinds = true ∧ f.v2AccountsConsumed = true ∧ f.v1AccountsConsumed = true := by
+      simpa [Facts.all, and_assoc] using hf
+    exact this.1
+  simp only [ReaderStack.step, h, ↓reduceIte, discardN_all_enough m.root he, and_self]
+
+/-- the code as it is now has the three accounting statements (regenerated) -/
+theorem reader_stack_facts_hold : Gen.ConnLegacy.readerStackFacts.all = true := by decide
+
+/-- the modelled message-set reader is a `Body` that conserves bytes: the hypothesis of `fetch_aligned_or_closed` /
+`fetch_cut_is_error` is discharged for it (any operation sequences, any error it ends with) -/
+def stackBody (f : Facts) (ops1 ops2 : List Op) (e1 : Option Err) (e2 : Err) : Body where
+  first := fun s => (match e1 with | some e => .error e | none => .ok (), (ReaderStack.run f ⟨s, []⟩ ops1).root)
+  rest := fun s => (e2, (ReaderStack.run f ⟨s, []⟩ ops2).root)
+
+theorem stackBody_conserves (f : Facts) (hf : f.all = true) (ops1 ops2 : List Op) (e1 : Option Err) (e2 : Err) :
+    (stackBody f ops1 ops2 e1 e2).Conserves :=
+  ⟨fun s => stack_run_adv f hf ops1 ⟨s, []⟩, fun s => stack_run_adv f hf ops2 ⟨s, []⟩⟩
+
+/-- the two seeded shapes, as runs of the model: (1) `discard()` that only unwinds exhausted readers — closing part-way
+through a compressed batch leaves the rest of the response on the Conn; (2) a compressed v2 batch always counted as
+fully consumed — `remain` reaches 0 although the stream ended inside the payload. -/
+theorem reader_stack_counterexamples :
+    (let f : Facts := ⟨false, true, true⟩
+     let m := ReaderStack.run f ⟨⟨List.replicate 100 0, 100⟩, []⟩ [.read 61, .pushV2 20 20 50, .read 10, .discard]
+     m.root.sz = 19 ∧ m.root.inp.length = 19) ∧
+    (let f : Facts := ⟨true, false, true⟩
+     let m := ReaderStack.run f ⟨⟨List.replicate 70 0, 100⟩, []⟩ [.read 61, .pushV2 39 39 0, .pop, .discard]
+     m.root.sz = 0 ∧ m.root.inp.length = 0) ∧
+    (let f : Facts := ⟨true, true, true⟩
+     let m := ReaderStack.run f ⟨⟨List.replicate 70 0, 100⟩, []⟩ [.read 61, .pushV2 39 39 0, .pop, .discard]
+     m.root.sz = 30) := by decide
+
+end ReaderStackSec
+
+/-! ### listOffsets: inside the main theorems since it drains on kafka errors (fix C11-D34); the shape theorem stays -/
+
+/-- list-offsets as it was before the fix C11-D34: the kafka error leaves the partition loop without a drain -/
+def listOffsetsUnfixed : OpSpec :=
+  { parse := fun _ => readOffsetClosure Gen.ConnLegacy.partitionOffsetV1, drain := false, expectZero := true, post := .none, closeOnErr := true }
 
 /-- two partitions in one list-offsets response (never sent for a one-partition request), error in the first:
-the second entry stays unread on a Conn that is kept — the reason `listOffsets` is outside `aligned_or_closed`. -/
+without the drain the second entry stayed unread on a Conn that is kept; the current (regenerated) operation skips it. -/
 def listOffsets2 : Bytes :=
   [0,0,0,1, 0,1,116, 0,0,0,2, 0,0,0,0, 0,6, 0,0,0,0,0,0,0,0, 0,0,0,0,0,0,0,0,
                                0,0,0,1, 0,0, 0,0,0,0,0,0,0,0, 0,0,0,0,0,0,0,9]
 theorem listOffsets_two_partitions_counterexample :
-    ((specOf "listOffsets").map fun o => (opRead o 1 [116] ⟨listOffsets2, listOffsets2.length⟩).1) = some (.kafka 6) ∧
-    ((specOf "listOffsets").map fun o => (opRead o 1 [116] ⟨listOffsets2, listOffsets2.length⟩).2.sz) = some 22 := by
+    (opRead listOffsetsUnfixed 1 [116] ⟨listOffsets2, listOffsets2.length⟩).1 = .kafka 6 ∧
+    (opRead listOffsetsUnfixed 1 [116] ⟨listOffsets2, listOffsets2.length⟩).2.sz = 22 ∧
+    ((specOf "listOffsets").map fun o => (opRead o 1 [116] ⟨listOffsets2 ++ [9], listOffsets2.length⟩)) =
+      some (.kafka 6, ⟨[9], 0⟩) := by
   decide
 
 theorem readInt_app (a r : Bytes) (n sz : Nat) (h : a.length = n) (hn : n ≤ sz) :
@@ -288,7 +549,7 @@ theorem discardN_app (a r : Bytes) (n : Int) (sz : Nat) (h : (a.length : Int) = 
 timestamp, offset; any bytes after the frame.  Result: ok / that kafka error, frame exactly consumed. -/
 theorem listOffsets_aligned_wf (o : OpSpec) (topic c1 lenb name c2 part err ts off rest : Bytes)
     (hparse : o.parse 1 = readOffsetClosure [.int 4, .err, .int 8, .int 8])
-    (hdrain : o.drain = false) (hzero : o.expectZero = true) (hpost : o.post.eval topic = fun _ => none)
+    (hzero : o.expectZero = true) (hpost : o.post.eval topic = fun _ => none)
     (h1 : c1.length = 4) (h1v : beInt c1 = 1) (hl : lenb.length = 2) (hn : beInt lenb = name.length)
     (h2 : c2.length = 4) (h2v : beInt c2 = 1)
     (hp : part.length = 4) (he : err.length = 2) (ht : ts.length = 8) (ho : off.length = 8) :
@@ -319,13 +580,13 @@ theorem listOffsets_aligned_wf (o : OpSpec) (topic c1 lenb name c2 part err ts o
   simp only []
   by_cases hz : beInt err = 0
   · simp [hz, hzero, hpost]
-  · simp [hz, hdrain]
+  · simp [hz]
 
 /-- the regenerated list-offsets operation has exactly the shape `listOffsets_aligned_wf` is about -/
 theorem listOffsets_gen_shape : ∃ o, specOf "listOffsets" = some o ∧
-    o.parse 1 = readOffsetClosure [.int 4, .err, .int 8, .int 8] ∧ o.drain = false ∧ o.expectZero = true ∧
+    o.parse 1 = readOffsetClosure [.int 4, .err, .int 8, .int 8] ∧ o.expectZero = true ∧
     (∀ t, o.post.eval t = fun _ => none) :=
-  ⟨_, rfl, rfl, by decide, by decide, fun _ => rfl⟩
+  ⟨_, rfl, rfl, by decide, fun _ => rfl⟩
 
 /-! ### the read lock is released on every exit path (regenerated facts), a leaked lock blocks forever -/
 
@@ -338,26 +599,26 @@ theorem lock_released_on_every_path (lf : LockFacts) (h : lf.all = true) (inflig
     (connDoL lf inflight o v topic (c, false)).2.2 = false ∧
     (inflight = false → (connDoL lf inflight o v topic (c, false)).1 = (connDo o v topic c).1 ∧
                         (connDoL lf inflight o v topic (c, false)).2.1 = (connDo o v topic c).2) := by
-  have hh : lf.peekErr = true ∧ lf.noProgress = true ∧ lf.yield = true ∧ lf.take = true ∧ lf.doBody = true ∧
+  have hh : lf.peekErr = true ∧ lf.noProgress = true ∧ lf.desyncCloses = true ∧ lf.yield = true ∧ lf.take = true ∧ lf.leave = true ∧ lf.doBody = true ∧
       lf.apiVersions = true ∧ lf.batchHandover = true ∧ lf.batchClose = true := by
     simpa [LockFacts.all, and_assoc] using h
-  obtain ⟨h1, h2, _, h4, h5, h6, _, _⟩ := hh
+  obtain ⟨h1, h2, hd, _, h4, hl, h5, h6, _, _⟩ := hh
   have hrel : ∀ p, released lf o.closeOnErr p = true := by
-    intro p; cases p <;> simp [released, h1, h2, h4, h5, h6]
+    intro p; cases p <;> simp [released, h1, h2, h4, h5, h6, hl]
   refine ⟨by simp [connDoL, hrel], ?_⟩
   intro hi
   subst hi
-  simp [connDoL]
+  simp [connDoL, hd]
 
 theorem lock_released_fetch (lf : LockFacts) (h : lf.all = true) (fixed : Bool) (v : Nat) (off : Int) (b : Body) (c : Conn) :
     (connFetchL lf fixed v off b (c, false)).2.2 = false := by
-  have hh : lf.peekErr = true ∧ lf.noProgress = true ∧ lf.yield = true ∧ lf.take = true ∧ lf.doBody = true ∧
+  have hh : lf.peekErr = true ∧ lf.noProgress = true ∧ lf.desyncCloses = true ∧ lf.yield = true ∧ lf.take = true ∧ lf.leave = true ∧ lf.doBody = true ∧
       lf.apiVersions = true ∧ lf.batchHandover = true ∧ lf.batchClose = true := by
     simpa [LockFacts.all, and_assoc] using h
-  obtain ⟨h1, h2, _, h4, h5, _, h7, h8⟩ := hh
+  obtain ⟨h1, h2, _, _, h4, hl, h5, _, h7, h8⟩ := hh
   unfold connFetchL
   simp only [Bool.false_and, Bool.false_eq_true, ↓reduceIte, Bool.false_or, Bool.not_eq_eq_eq_not, Bool.not_false]
-  cases exitPath false c <;> simp [released, h1, h2, h4, h5, h7, h8]
+  cases exitPath false c <;> simp [released, h1, h2, h4, h5, h7, h8, hl]
 
 /-- once the lock is leaked, every operation whose request goes out blocks — result and state never change again -/
 theorem leaked_lock_blocks (lf : LockFacts) (inflight : Bool) (o : OpSpec) (v : Nat) (topic : Bytes) (c : Conn)
@@ -428,7 +689,7 @@ theorem iter_entries (es : List (Bytes × Bytes × Bytes)) (h : EntriesWF es) (r
     rw [h2]
     simp [Ctx.errs]
 
-/-- ApiVersions v0 (conn.go ApiVersions, no expectZeroSize): on every well-formed frame — any error code, any number
+/-- ApiVersions v0 (conn.go ApiVersions): on every well-formed frame — any error code, any number
 of entries, anything after the frame — the result is ok / that kafka error and exactly the frame is consumed. -/
 theorem apiVersions_aligned_wf (topic err cnt rest : Bytes) (es : List (Bytes × Bytes × Bytes))
     (he : err.length = 2) (hc : cnt.length = 4) (hcv : beInt cnt = es.length) (hes : EntriesWF es) :
@@ -446,10 +707,36 @@ theorem apiVersions_aligned_wf (topic err cnt rest : Bytes) (es : List (Bytes ×
   have hsz : 2 + (4 + 6 * es.length) - 2 - 4 = 6 * es.length + 0 := by omega
   rw [hsz]
   rw [h1]
-  simp only [Bool.false_and, Bool.false_eq_true, ↓reduceIte, Post.eval, h2]
+  have hb : ¬ ((es.length : Int) < 0 ∨ (es.length : Int) > ((6 * es.length + 0) / 6 : Nat)) := by omega
+  rw [if_neg hb]
+  simp only [Nat.add_zero, not_true_eq_false, and_false, ↓reduceIte, Post.eval, h2]
   by_cases hz : beInt err = 0
   · simp [hz, Ctx.errs]
   · simp [hz, Ctx.errs]
+
+/-- ApiVersions as it was before the fix C11-D33: no `expectZeroSize`, Conn kept on every error -/
+def apiVersionsUnfixed : OpSpec :=
+  { parse := fun _ => Gen.ConnLegacy.apiVersionsParseGen, drain := false, expectZero := false, post := .firstErr [], closeOnErr := false }
+
+/-- an ApiVersions v0 response (request 1) with one entry and 4 more bytes in the frame -/
+def avFrame : Bytes := [0,0,0,20, 0,0,0,1] ++ [0,0, 0,0,0,1, 0,3, 0,0, 0,9] ++ [7,7,7,7]
+
+/-- C11-D33, the unfixed shape: ok, Conn kept, 4 bytes of the frame left in the stream → the next operation reads
+mid-frame (io.ErrNoProgress); and a cut entry list: error, Conn kept and misaligned all the same -/
+theorem apiVersions_trailing_counterexample :
+    (connDo apiVersionsUnfixed 0 [] ⟨avFrame ++ d2Next, 1, false⟩).1 = .ok ∧
+    (connDo apiVersionsUnfixed 0 [] ⟨avFrame ++ d2Next, 1, false⟩).2 = ⟨[7,7,7,7] ++ d2Next, 2, false⟩ ∧
+    (connDo (simpleOp "heartbeat" Gen.ConnLegacy.heartbeatResponseV0) 0 []
+        (connDo apiVersionsUnfixed 0 [] ⟨avFrame ++ d2Next, 1, false⟩).2).1 = .fail (.other "io.ErrNoProgress") ∧
+    (connDo apiVersionsUnfixed 0 [] ⟨[0,0,0,12, 0,0,0,1, 0,0, 0,0,0,1, 0,3] ++ d2Next, 1, false⟩).2.closed = false := by
+  decide
+
+/-- the same frames through the current (regenerated) operation: an error and the Conn is closed -/
+theorem apiVersions_fixed_example :
+    ((specOf "apiVersions").map fun o => ((connDo o 0 [] ⟨avFrame ++ d2Next, 1, false⟩).1 matches .fail _,
+        (connDo o 0 [] ⟨avFrame ++ d2Next, 1, false⟩).2.closed,
+        (connDo o 0 [] ⟨[0,0,0,12, 0,0,0,1, 0,0, 0,0,0,1, 0,3] ++ d2Next, 1, false⟩).2.closed)) = some (true, true, true) := by
+  decide
 
 /-- a well-formed one-partition list-offsets error frame (error 3 = UnknownTopicOrPartition): aligned -/
 def listOffsets1 : Bytes :=
